@@ -25,12 +25,38 @@ type C03Config struct {
 	HistSeed uint64 `json:"hist_seed"`
 }
 
+// trPrefix puts a transcript that is NOT fresh in front of the prover: some messages and
+// challenges already went through it (one transcript used for several proofs in a row). The
+// proof must be the specified function of that state: the reference transcript gets the same
+// prefix.
+func trPrefixLib(tr *common.Transcript, n int, seed uint64) {
+	r := NewRng(seed, n, "trprefix")
+	for i := 0; i < n; i++ {
+		s := FrFromBig(r.Scalar())
+		tr.AppendScalar(&s, []byte("pre"))
+		if r.Bool() {
+			tr.ChallengeScalar([]byte("prec"))
+		}
+	}
+}
+
+func trPrefixRef(tr *refmodel.Transcript, n int, seed uint64) {
+	r := NewRng(seed, n, "trprefix")
+	for i := 0; i < n; i++ {
+		tr.AppendScalar(r.Scalar(), []byte("pre"))
+		if r.Bool() {
+			tr.ChallengeScalar([]byte("prec"))
+		}
+	}
+}
+
 type C03Plan struct {
 	Kind     string      `json:"kind"` // multi | ipa
 	Set      OpeningSet  `json:"set"`
 	IPAPoly  PolySpec    `json:"ipa_poly"`
 	IPAEval  string      `json:"ipa_eval"` // in | out | edge
 	IPASeed  uint64      `json:"ipa_seed"`
+	TrPrefix int         `json:"transcript_prefix_ops,omitempty"` // operations already performed on the transcript handed to the prover
 	Configs  []C03Config `json:"configs"`
 }
 
@@ -62,6 +88,9 @@ func (c03) Gen(seed uint64, run int, tier, variant string) interface{} {
 	p.IPAPoly = PolySpec{Kind: polyKinds[r.Intn(len(polyKinds))], Seed: r.U64()}
 	p.IPAEval = []string{"in", "out", "edge", "edge"}[r.Intn(4)]
 	p.IPASeed = r.U64()
+	if r.Chance(20) {
+		p.TrPrefix = 1 + r.Intn(6)
+	}
 	k := 4
 	if tier == "thorough" {
 		k = 6
@@ -174,6 +203,7 @@ func (c03) Exec(plan interface{}) Result {
 		refFs = append(refFs, o0.PolyBig[op.Poly])
 	}
 	rtr := refmodel.NewTranscript(p.Set.Label)
+	trPrefixRef(rtr, p.TrPrefix, p.IPASeed)
 	rproof, rerr := refmodel.MultiProve(rtr, refCs, refFs, o0.Zs)
 	if rerr != nil {
 		res.Infra = "reference prover: " + rerr.Error()
@@ -199,6 +229,7 @@ func (c03) Exec(plan interface{}) Result {
 		po, out := Simulate(c.Sim, 20000, func() (po proveOut) {
 			history(c.History, c.HistSeed)
 			tr := common.NewTranscript(set.Label)
+			trPrefixLib(tr, p.TrPrefix, p.IPASeed)
 			proof, err := multiproof.CreateMultiProof(tr, env.Config(), o.Cs, o.Fs, o.Zs)
 			po.err = err
 			if err != nil {
@@ -269,6 +300,7 @@ func c03ipa(p *C03Plan) Result {
 	}
 	z := p.evalPoint()
 	rtr := refmodel.NewTranscript("ipa-c03")
+	trPrefixRef(rtr, p.TrPrefix, p.IPASeed)
 	rp := refmodel.IPAProve(rtr, comRef, fb, z)
 	want := rp.Bytes()
 	wantNext := rtr.ChallengeScalar([]byte("next"))
@@ -280,6 +312,7 @@ func c03ipa(p *C03Plan) Result {
 		po, out := Simulate(c.Sim, 20000, func() (po proveOut) {
 			history(c.History, c.HistSeed)
 			tr := common.NewTranscript("ipa-c03")
+			trPrefixLib(tr, p.TrPrefix, p.IPASeed)
 			proof, err := ipa.CreateIPAProof(tr, cfg, ce, a, FrFromBig(z))
 			po.err = err
 			if err != nil {
